@@ -140,7 +140,23 @@ def gen_foriter():
     return "\n".join(out)
 
 
+def gen_libmath():
+    """lib/math.facto -> Gen/LibMath.v through the independent front end py/facto2v.py (C17)"""
+    import facto2v
+
+    try:
+        with open(os.path.join(REPO, "lib", "math.facto"), encoding="utf-8") as f:
+            text = f.read()
+    except OSError as e:
+        raise Abort(f"facto2v: cannot read lib/math.facto: {e}")
+    funcs = facto2v.parse_library(text)
+    if not funcs:
+        raise Abort("facto2v: lib/math.facto defines no function")
+    return facto2v.to_coq(funcs)
+
+
 TARGETS = {"Fold.v": gen_fold, "ForIter.v": gen_foriter}
+TARGETS["LibMath.v"] = gen_libmath
 
 
 def main(which=None):
